@@ -79,7 +79,7 @@ def main(tier, replay, t0):
         if not camp.module_ok(c.id, x["id"]):
             lost += 1
             continue
-        base = {"wgsl": c.wgsl, "options": x["opt"]}
+        base = {"case_id": c.id, "wgsl": c.wgsl, "options": x["opt"]}
         ps = camp.probe_state(c.id, x["id"], "probe_c02")
         if not ps or not ps["accepted"]:
             d = (ps or {}).get("diags") or [{}]
@@ -137,7 +137,7 @@ def main(tier, replay, t0):
     facts_mismatch = []
     for r in res:
         c, x, ordered, pl = meta[r["id"]]
-        base = {"wgsl": c.wgsl, "options": x["opt"]}
+        base = {"case_id": c.id, "wgsl": c.wgsl, "options": x["opt"]}
         if r.get("error") or r.get("harness_error"):
             raise core.Inconclusive("oracle could not process %s: %s" % (
                 r["id"], r.get("error") or r.get("harness_error")))
